@@ -1016,6 +1016,63 @@ class ExecHarness:
                           list(self.kernel_issues))
 
 
+def reexecute(pl: Pipeline, times: int = 3, seed: int = 0) -> list[dict]:
+    """TIME STEPPING: every rank executes THE SAME DistributedGraphPartition object *times*
+    times in a row (a barrier between the steps), under a random schedule.  Whatever the
+    executor memoises on the partition object must not be consumed by an execution: every
+    step ends normally and returns what the first step returned.  -> problems"""
+    import random
+    fakempi.install()
+    _patch_to_device()
+    n = pl.prog["nranks"]
+    rnd = random.Random(seed)
+
+    class RandomChooser:
+        def pick(self, world: Any, trans: list) -> int:
+            return rnd.randrange(len(trans))
+    world = fakempi.World(n, chooser=RandomChooser(), grain="model")
+    steps: list[list[Any]] = [[None] * times for _ in range(n)]
+
+    def rank_fn(r: int) -> Callable:
+        from pytato.distributed.execute import execute_distributed_partition
+        part = pl.num[r]
+
+        def prog(pid: Any) -> Callable:
+            def prg(queue: Any, allocator: Any = None, **kw: Any) -> tuple[Any, dict]:
+                return None, ref_eval({nm: part.name_to_output[nm]
+                                       for nm in part.parts[pid].output_names}, kw)
+            return prg
+
+        def f(comm: Any) -> dict:
+            prgs = {pid: prog(pid) for pid in part.parts}
+            for k in range(times):
+                steps[r][k] = execute_distributed_partition(
+                    part, prgs, None, comm, input_args=dict(pl.inputs[r]))
+                comm.barrier()
+            return steps[r][-1]
+        return f
+    res = world.run([rank_fn(r) for r in range(n)])
+    problems = []
+    for r, rr in enumerate(res):
+        done = sum(1 for x in steps[r] if x is not None)
+        if rr.status != "ok":
+            problems.append({"clause": "reexecution_failed", "rank": r, "step": done + 1,
+                             "what": f"rank {r}: execution {done + 1} of the same partition "
+                                     f"object ended with {rr.status} "
+                                     f"{rr.exc_name or rr.reason or ''}: "
+                                     f"{str(rr.exc)[:120] if rr.exc is not None else ''}"})
+            continue
+        for k in range(1, times):
+            a, b = steps[r][0], steps[r][k]
+            if sorted(a) != sorted(b) or any(_differs(np.asarray(b[nm]), np.asarray(a[nm]))
+                                             for nm in a):
+                problems.append({"clause": "reexecution_differs", "rank": r, "step": k + 1,
+                                 "what": f"rank {r}: execution {k + 1} of the same partition "
+                                         f"object returns something else than the first"})
+                break
+    return problems
+
+
 def run_once(pl: Pipeline, inst: dict, vt: ValueTable, chooser: Any, **kw: Any) -> ExecResult:
     ch = chooser if isinstance(chooser, fakempi.ReplayChooser) else \
         fakempi.ReplayChooser([], then=chooser)
